@@ -810,6 +810,39 @@ class Machine:
                                 work.append(e2)
         return self
 
+    def run_text(self, text, max_envs=4000):
+        """the configurations the machine can be in after the bytes of `text`, from the initial configuration (every fork on an
+        untracked value is followed; push-backs re-dispatch the byte; paths with a violation or a return are dropped)"""
+        envs = {self.initial_env().key(): self.initial_env()}
+        stop_when = self.d.get('stop_state')
+        for b in text:
+            c = b - 256 if b > 127 else b
+            nxt = {}
+            for env in envs.values():
+                if stop_when and stop_when(env):
+                    nxt[env.key()] = env
+                    continue
+                pending = [(env, 0)]
+                while pending:
+                    cur, depth = pending.pop()
+                    for e2, ctl in self.step(cur, c):
+                        if e2.viol or ctl == 'return':
+                            continue
+                        if ctl not in (None, 'continue', 'break'):
+                            raise Stuck('control %s leaves the loop body' % (ctl,))
+                        if ctl == 'break':
+                            continue
+                        if e2.pushback >= 1:
+                            if depth > 12:
+                                continue
+                            pending.append((e2.copy(), depth + 1))
+                            continue
+                        nxt[e2.key()] = e2
+                        if len(nxt) > max_envs:
+                            raise Stuck('more than %d configurations for one text' % max_envs)
+            envs = nxt
+        return list(envs.values())
+
     def representatives(self):
         """One byte per equivalence class of the atomic conditions on the current character found in the interpreted code
         (comparisons of c with constants, pure predicates of c, switch labels on c): bytes of one class take the same branches."""
